@@ -99,6 +99,7 @@ partial def shape? : Sexp → Option Shape
   | .list [.atom "tbt"] => some .tbt
   | .list [.atom "etod", c] => (shape? c).map .etod
   | .list [.atom "deco", c] => (shape? c).map .deco
+  | .list [.atom "sff"] => some .sff
   | .list [.atom "fsink", l, b, f] => do some (.fsink (← bool? l) (← bool? b) (← flavour? f))
   | .list [.atom "tagger", n, g, c] => do some (.tagger (← tags? n) (← tags? g) (← shape? c))
   | .list [.atom "tfr", c] => (shape? c).map .tfr
